@@ -56,6 +56,14 @@ func EndBlocker(ctx sdk.Context, k keeper.Keeper) {
 
 	// handler for the new request batch
 	newRequestBatchHandler := func(requestContextID tmbytes.HexBytes, requestContext types.RequestContext) {
+		if requestContext.State == types.RUNNING && requestContext.Repeated &&
+			requestContext.RepeatedTotal > 0 && int64(requestContext.BatchCounter) >= requestContext.RepeatedTotal {
+			// the total has already been reached, e.g. paused during the last batch and started afterwards
+			k.CompleteServiceContext(ctx, requestContext, requestContextID)
+			k.DeleteNewRequestBatch(ctx, requestContextID, ctx.BlockHeight())
+			return
+		}
+
 		if requestContext.State == types.RUNNING {
 			providers, totalPrices, rawDenom, err := k.FilterServiceProviders(
 				ctx,
